@@ -239,6 +239,37 @@ def validate(traces, module, cfg, xmx="2g", timeout=900, env=None):
     return events, rejects, notes
 
 
+# ---------------------------------------------------------------- constants of the tree under test
+def mined_constants():
+    """Integer literals (and 1<<k, (1<<k)-1) that occur in the library sources of the tree under test.
+    Comparisons against constants are where value classes switch; the generators put every such constant
+    and its neighbours into their boundary domains, so a threshold introduced by a change is exercised
+    without anybody having to know about it."""
+    import glob
+    vals = set()
+    for f in sorted(glob.glob(os.path.join(REPO, "src", "*.[ch]"))):
+        b = os.path.basename(f)
+        if "Test" in b or "test" in b or "Bench" in b:
+            continue
+        with open(f, errors="ignore") as fh:
+            t = fh.read()
+        t = re.sub(r"/\*.*?\*/", "", t, flags=re.S)
+        t = re.sub(r"//.*", "", t)
+        for m in re.finditer(r"\b(0[xX][0-9a-fA-F]+|\d+)(?:[uUlL]*)\b", t):
+            try:
+                v = int(m.group(1), 0)
+            except ValueError:
+                continue
+            if v < 2 ** 64:
+                vals.add(v)
+        for m in re.finditer(r"1[uUlL]*\s*<<\s*(\d+)", t):
+            k = int(m.group(1))
+            if k < 64:
+                vals.add(1 << k)
+                vals.add((1 << k) - 1)
+    return sorted(vals)
+
+
 # ---------------------------------------------------------------- findings
 def load_known():
     p = os.path.join(ROOT, "known_findings.json")
